@@ -9,7 +9,4 @@ INIT Init
 NEXT Next
 VIEW View
 CONSTRAINT ExportBound
-INVARIANT ContractHolds
-INVARIANT LockoutSticks
-INVARIANT CounterTracks
-INVARIANT TypeOK
+INVARIANT EvalGate
